@@ -292,10 +292,13 @@ def run(ctx, res):
     rec = [(bi, t) for bi, t in L.calls() if M.callee_name(t) == L.path]
     res.floor("CYCLE-GUARD", "recursive load_toplevel_items_ calls", len(rec), 1)
     seen_sw = D.call_switches(L, "::contains", None)
-    seen_sw = [s for s in seen_sw if L.local_name(L.root_of(s["call"]["args"][0])[1]["l"]) == "paths_seen"
-               if L.root_of(s["call"]["args"][0])[0] == "place"]
+    def is_seen_set(op):
+        # the set of paths already being loaded: the HashSet<PathBuf> parameter of the loader
+        r = L.root_of(op, through_named=True)
+        return r[0] == "place" and r[1]["l"] <= L.argc and "HashSet<std::path::PathBuf" in L.local_ty(r[1]["l"])
+    seen_sw = [s for s in seen_sw if is_seen_set(s["call"]["args"][0])]
     seen_ins = [bi for bi, t in L.calls() if (M.callee_name(t) or "").endswith("HashSet::<T, S, A>::insert")
-                and L.root_of(t["args"][0])[0] == "place" and L.local_name(L.root_of(t["args"][0])[1]["l"]) == "paths_seen"]
+                and is_seen_set(t["args"][0])]
     for bi, t in rec:
         ok = False
         for s in seen_sw:
